@@ -718,7 +718,8 @@ async fn run_inner(cfg: &Cfg, out: &mut Outcome) {
                     if let Some(d) = next_dl {
                         for delta in [-1i64, 0, 1, 2] {
                             let t = d as i64 + delta - now as i64;
-                            if t > 0 {
+                            // year-long jumps are left to the final phase (DESIGN.md, finding F7)
+                            if t > 0 && t < 4 * 3600 * 1000 {
                                 choices.push(t as u64);
                                 choices.push(t as u64);
                             }
